@@ -38,13 +38,20 @@ func checkParsesAs(t *fw.T, tree *gen.Node, lays []NamedLayout, label string) {
 			return map[string]any{"source": src, "layout": l.Name, "expected_tree": want}
 		}
 		var po ParseOut
-		// every third text is parsed by a parser built from a long-lived builder that served other modes before
-		recycled := i%3 == 2
-		// ... and every third text by a tolerant-mode parser: on a valid program tolerant mode has nothing to forgive,
-		// the tree is a function of the token sequence there as well
-		tolerant := i%3 == 1
+		// every fourth text is parsed by a parser built from a long-lived builder that served other modes before
+		k := (i + t.Index) % 4
+		recycled := k == 2
+		// ... every fourth text by a tolerant-mode parser (on a valid program tolerant mode has nothing to forgive, the
+		// tree is a function of the token sequence there as well), every fourth under observing plugins
+		tolerant := k == 1
+		observed := k == 3
+		if observed {
+			t.Count("texts_parsed_under_observing_interceptors", 1)
+		}
 		if !t.Guard("parse", wit, func() {
 			switch {
+			case observed:
+				po = parseObserved(src, t.Index+i)
 			case recycled:
 				po = parseRecycled(src, t.Index+i)
 			case tolerant:
